@@ -165,6 +165,35 @@ func ruleNameList(c *Ctx) []*Obligation {
 					}
 				}
 			}
+			if !good && name == "RemoveByName" {
+				// accepted alternative: delegate to Remove(index) under exactly index >= 0
+				rm := c.MustFunc(spec.pkg, spec.typ, "Remove")
+				for _, ci := range allCalls(fn) {
+					if ci.Common().StaticCallee() != rm {
+						continue
+					}
+					arg := callArgs(ci.Common())[0]
+					if call, ok := arg.(*ssa.Call); !ok || call.Call.StaticCallee() != find {
+						why = "Remove is called with something other than the search index"
+						continue
+					}
+					for _, g := range guardsAt(ci.Block()) {
+						cond, truth := g.atom()
+						if bo, ok := cond.(*ssa.BinOp); ok && bo.X == arg {
+							k, isK := constInt(bo.Y)
+							op := bo.Op
+							if !truth {
+								op = negateOp(op)
+							}
+							if isK && ((op == token.GEQ && k == 0) || (op == token.GTR && k == -1) || (op == token.NEQ && k == -1)) {
+								good = true
+							} else {
+								why = "the delegation to Remove is not guarded by exactly index >= 0: removing the first entry by name is a no-op, or an absent name indexes at -1"
+							}
+						}
+					}
+				}
+			}
 			o.check(good, key, c.Pos(fn.Pos()), "removes exactly the entry at the index, keeping the order of the rest", name+": "+why)
 		}
 		// FindByName
